@@ -157,9 +157,10 @@ func (g *Global) LLString() string {
 		fmt.Fprintf(buf, ", partition %s", quote(g.Partition))
 	}
 	if g.Comdat != nil {
-		// The comdat name is omitted when it is the name of the global; an
+		// The comdat name is omitted when it is the name of the global (the name
+		// itself, not the quoted spelling Name returns for a numeric name); an
 		// unnamed global has no name to stand in for it.
-		if !g.IsUnnamed() && g.Comdat.Name == g.Name() {
+		if !g.IsUnnamed() && g.Comdat.Name == g.GlobalName {
 			buf.WriteString(", comdat")
 		} else {
 			fmt.Fprintf(buf, ", %s", g.Comdat)
